@@ -187,6 +187,12 @@ def run(ctx):
                    "other" if re.search(r"next\(|#Some\.0\.0|other", nd) else "arg" if nd == "arg_id" else "?:" + nd[:30]))
     res.check(("self-conflicts", "other") in pairs and ("other-conflicts", "arg") in pairs, "R3.4", "both-directions", gc.where(), "gather_conflicts tests both directions: %s" % sorted(pairs),
               "gather_conflicts no longer tests both (arg conflicts with other) and (other conflicts with arg): %s" % sorted(pairs))
+    # the two direction tests run for EVERY other present id: the only pair skipped is (arg, arg) itself
+    for c in cont:
+        gl = [g for g in guard_strs(gc, c.bb) if not re.match(r"^V1:next\(", g)]
+        extra = [g for g in gl if not re.fullmatch(r"F:eq\((arg_id,next\(.*\)#Some\.0\.0|next\(.*\)#Some\.0\.0,arg_id)\)|F:contains\(.*\)", g)]
+        res.check(not extra, "R3.4", "direction-tests-for-every-other-id", c.where(), "conflict tests skipped only for the id itself",
+                  "gather_conflicts skips its conflict test for some present ids (extra condition %s): a declared conflict between an argument and %s is never evaluated" % (extra[:2], "those ids"))
     ga = fx.body("clap_builder::parser::validator::gather_arg_direct_conflicts")
     for fld in ("blacklist", "overrides"):
         res.check(reads_field(ga, fld), "R3.4", "reads|Arg::" + fld, ga.where(), "direct conflicts include Arg::%s" % fld, "gather_arg_direct_conflicts no longer reads Arg::%s" % fld)
